@@ -4,6 +4,8 @@ set -u
 patch="$1"; shift
 cd /repo || exit 2
 if ! git diff --quiet; then echo "/repo not clean"; exit 2; fi
+# evidence and generated files written while the change is applied are not about /repo: keep the current ones aside
+keep=$(mktemp -d /root/work/keep.XXXXXX); cp -a /verif/evidence "$keep/evidence"; cp -a /verif/lean/Generated "$keep/Generated"
 if ! git apply "$patch" 2>/dev/null; then
   if ! patch -p1 --fuzz=3 -s < "$patch"; then echo "PATCH FAILED"; git reset -q --hard HEAD; git clean -fdq; exit 2; fi
 fi
@@ -16,7 +18,5 @@ for p in "$@"; do
 done
 cd /repo && git reset -q --hard HEAD && git clean -fdq >/dev/null 2>&1
 # the evidence written while the change was applied is not evidence about /repo: restore the committed files
-git -C /verif checkout -- evidence 2>/dev/null
-# … and so are the files generated from the changed tree
-git -C /verif checkout -- lean/Generated 2>/dev/null
+rm -rf /verif/evidence /verif/lean/Generated; mv "$keep/evidence" /verif/evidence; mv "$keep/Generated" /verif/lean/Generated; rmdir "$keep"
 git status --short | head -3
